@@ -823,3 +823,178 @@ Proof.
 Qed.
 
 End WMat.
+
+(* ---------------------------------------------------------------- construction *)
+
+Lemma core_levels_shape fuel width level src ls :
+  core_levels fuel width level src = Ok ls ->
+  Forall2 (fun c r => bv_from_bits c = Ok r) (level_columns fuel width level src) ls.
+Proof.
+  revert level src ls. induction fuel as [|k IH]; intros level src ls H; cbn [core_levels level_columns] in *.
+  - injection H as <-. constructor.
+  - destruct (bv_from_bits (map (fun v => has_bit v (bit_value width level)) src)) as [bv| |] eqn:Eb; cbn [bind] in H; try discriminate.
+    match type of H with context [core_levels k width (level + 1) ?s] => destruct (core_levels k width (level + 1) s) as [rest| |] eqn:Er end;
+      cbn [bind] in H; try discriminate.
+    injection H as <-. constructor; [exact Eb|]. apply IH. exact Er.
+Qed.
+
+Lemma init_support_shape sp m ls ls' :
+  init_support sp m ls = Ok ls' -> Forall2 (fun r b => bv_enable_all sp m r = Ok b) ls ls'.
+Proof.
+  revert ls'. induction ls as [|b t IH]; intros ls' H; cbn [init_support] in H.
+  - injection H as <-. constructor.
+  - destruct (bv_enable_all sp m b) as [b'| |] eqn:Eb; cbn [bind] in H; try discriminate.
+    destruct (init_support sp m t) as [t'| |] eqn:Et; cbn [bind] in H; try discriminate.
+    injection H as <-. constructor; [exact Eb|]. apply IH. reflexivity.
+Qed.
+
+(* what From<Vec<T>> returns: length, levels built from the ideal columns, offsets stored and packed *)
+Theorem wm_from_shape sp m V wm :
+  wm_from sp m V = Ok wm ->
+  exists raws levels F iv,
+    Forall2 (fun c r => bv_from_bits c = Ok r) (wm_columns V) raws /\
+    Forall2 (fun r b => bv_enable_all sp m r = Ok b) raws levels /\
+    first_offsets m V (lenN V) (list_max V) = Ok F /\ iv_from 64 F = Ok iv /\ iv_pack iv = Ok (wm_first wm) /\
+    wm = mkwm (lenN V) (mkcore levels) (wm_first wm).
+Proof.
+  unfold wm_from, start_offsets, wm_core_from. intros H.
+  destruct (first_offsets m V (lenN V) (list_max V)) as [F| |] eqn:EF; cbn [bind] in H; try discriminate.
+  destruct (iv_from 64 F) as [iv| |] eqn:Eiv; cbn [bind] in H; try discriminate.
+  destruct (iv_pack iv) as [first| |] eqn:Ep; cbn [bind] in H; try discriminate.
+  destruct (core_levels (N.to_nat (bit_len (list_max V))) (bit_len (list_max V)) 0 V) as [raws| |] eqn:Ec; cbn [bind] in H; try discriminate.
+  destruct (init_support sp m raws) as [levels| |] eqn:Ei; cbn [bind] in H; try discriminate.
+  injection H as <-. cbn [wm_first]. exists raws, levels, F, iv.
+  split; [apply core_levels_shape; exact Ec|]. split; [apply init_support_shape; exact Ei|]. repeat split; assumption.
+Qed.
+
+Lemma Forall2_compose {A B C} (R1 : A -> B -> Prop) (R2 : B -> C -> Prop) (R : C -> A -> Prop) la lb lc :
+  Forall2 R1 la lb -> Forall2 R2 lb lc -> (forall a b c, In a la -> R1 a b -> R2 b c -> R c a) -> Forall2 R lc la.
+Proof.
+  intros H1. revert lc. induction H1 as [|a b la lb Hab H1 IH]; intros lc H2 Hc.
+  - inversion H2. constructor.
+  - inversion H2 as [|? c ? lc' Hbc H2']; subst. constructor.
+    + eapply Hc; [left; reflexivity|exact Hab|exact Hbc].
+    + apply IH; [exact H2'|]. intros a' b' c' Ha'. apply Hc. right. exact Ha'.
+Qed.
+
+Lemma wm_columns_lens V : Forall (fun x => x < 2 ^ 64) V -> Forall (fun B => lenB B = lenN V) (wm_columns V).
+Proof.
+  intros HV. unfold wm_columns. rewrite level_columns_colsk.
+  - apply (colsk_lens (fun x => x)).
+  - assert (Hm : list_max V < 2 ^ 64) by (apply list_max_lt; [lia|exact HV]). pose proof (bit_len_range _ Hm). lia.
+Qed.
+
+Lemma offsets_bounded m V F :
+  Forall (fun x => x < 2 ^ 64) V -> lenN V < 2 ^ 64 -> list_max V + 1 < 2 ^ 64 ->
+  first_offsets m V (lenN V) (list_max V) = Ok F ->
+  lenN F = list_max V + 1 /\ Forall (fun x => x <= lenN V) F.
+Proof.
+  intros HV Hn Hmax HF. destruct (first_offsets_ok m V HV Hmax) as (F' & H1 & H2 & H3). rewrite HF in H1. injection H1 as <-.
+  split; [exact H2|]. rewrite Forall_forall. intros x Hx. apply In_nth_error in Hx. destruct Hx as [k Hk].
+  assert (Hlt : (k < length F)%nat) by (apply nth_error_Some; congruence).
+  specialize (H3 (N.of_nat k)). rewrite nthN_nth_error, Nat2N.id, Hk in H3. unfold lenN in H2.
+  specialize (H3 ltac:(lia)). injection H3 as ->. destruct (contains_v V (N.of_nat k)) eqn:E; [|lia].
+  apply contains_v_in, less_v_lt in E. unfold lenS, lenN in *. lia.
+Qed.
+
+(* ---------------------------------------------------------------- summary statements *)
+
+Theorem core_mapping sp m V levels :
+  Forall (fun x => x < 2 ^ 64) V -> lenN V < 2 ^ 64 ->
+  Forall2 (bv_queries_ok sp m) levels (wm_columns V) ->
+  let core := mkcore levels in
+  wc_len core = Ok (lenS V) /\ wc_width core = width_v V /\
+  (forall i, i < 2 ^ 64 -> wc_map_down m core i = Ok (map_down_v V i)) /\
+  (forall i v, i < 2 ^ 64 -> wc_map_down_with m core i v = Ok (map_down_with_v V i (v mod 2 ^ width_v V))) /\
+  (forall i1 i2 v, i1 < 2 ^ 64 -> i2 < 2 ^ 64 ->
+     wc_map_down_with_two m core i1 i2 v =
+     Ok (map_down_with_v V i1 (v mod 2 ^ width_v V), map_down_with_v V i2 (v mod 2 ^ width_v V))) /\
+  (forall j v, j < 2 ^ 64 -> wc_map_up_with sp m core j v = Ok (map_up_v V j (v mod 2 ^ width_v V))) /\
+  (forall i x, nth_opt V i = Some x ->
+     exists j, j < lenS V /\ wc_map_down m core i = Ok (Some (j, x)) /\
+               wc_map_down_with m core i x = Ok j /\ wc_map_up_with sp m core j x = Ok (Some i)).
+Proof.
+  intros HV Hn Hlv core. pose proof (core_len_width sp m V levels HV Hn Hlv) as [H1 H2].
+  split; [exact H1|]. split; [exact H2|].
+  split; [intros i Hi; apply (core_map_down sp m V levels HV Hn Hlv i Hi)|].
+  split; [intros i v Hi; apply (core_map_down_with sp m V levels HV Hn Hlv i v Hi)|].
+  split; [intros i1 i2 v Hi1 Hi2; apply (core_map_down_two sp m V levels HV Hn Hlv i1 i2 v Hi1 Hi2)|].
+  split; [intros j v Hj; apply (core_map_up_with sp m V levels HV Hn Hlv j v Hj)|].
+  intros i x Hx. destruct (core_round_trip sp m V levels HV Hn Hlv i x Hx) as (j & Ha & Hb & Hc & Hd).
+  exists j. tauto.
+Qed.
+
+Theorem reordered_is_stable_sort V :
+  Permutation (reordered V) (index_from V 0) /\
+  StronglySorted (fun a b => revkey (snd a) < revkey (snd b) \/ (revkey (snd a) = revkey (snd b) /\ fst a < fst b))
+                 (reordered V).
+Proof. split; [apply reordered_perm|apply reordered_sorted]. Qed.
+
+Theorem wm_exact sp m V levels first F :
+  Forall (fun x => x < 2 ^ 64) V -> lenN V < 2 ^ 64 -> list_max V + 1 < 2 ^ 64 ->
+  Forall2 (bv_queries_ok sp m) levels (wm_columns V) ->
+  first_offsets m V (lenN V) (list_max V) = Ok F -> first_ok first F ->
+  let wm := mkwm (lenN V) (mkcore levels) first in
+  wm_len wm = lenS V /\ wm_width wm = width_v V /\ wm_width wm = bit_len (list_max V) /\
+  (forall i, i < 2 ^ 64 -> wm_get m wm i = match get_v V i with Some x => Ok x | None => Panic PUnwrap end) /\
+  (forall i v, i < 2 ^ 64 -> wm_rank m wm i v = Ok (rank_v V i v)) /\
+  (forall r v, r < 2 ^ 64 -> wm_select sp m wm r v = Ok (select_v V r v)) /\
+  (forall i, i < 2 ^ 64 -> wm_inverse_select m wm i = Ok (inverse_select_v V i)) /\
+  (forall v, wm_contains wm v = Ok (contains_v V v)) /\
+  (forall v, vi_items sp m wm (wm_value_iter v) = Ok (value_iter_v V v) /\ wm_value_of (wm_value_iter v) = v) /\
+  (forall r v, r < 2 ^ 64 -> vi_items sp m wm (wm_select_iter r v) = Ok (select_iter_v V r v)) /\
+  (forall i v, i < 2 ^ 64 -> (let* it := wm_predecessor m wm i v in vi_items sp m wm it) = Ok (pred_v V i v)) /\
+  (forall i v, i < 2 ^ 64 -> (let* it := wm_successor m wm i v in vi_items sp m wm it) = Ok (succ_v V i v)) /\
+  wm_into_iter m wm = Ok V.
+Proof.
+  intros HV Hn Hmax Hlv HF Hfirst wm. subst wm.
+  pose proof (wm_len_width_ok sp m V levels first HV Hn Hlv) as (H1 & H2 & H3).
+  split; [exact H1|]. split; [exact H2|]. split; [exact H3|].
+  split; [intros i Hi; eapply wm_get_ok; eassumption|].
+  split; [intros i v Hi; eapply wm_rank_ok; eassumption|].
+  split; [intros r v Hr; eapply wm_select_ok; eassumption|].
+  split; [intros i Hi; eapply wm_inverse_select_ok; eassumption|].
+  split; [intros v; eapply contains_ok; eassumption|].
+  split; [intros v; split; [eapply wm_value_iter_ok; eassumption|reflexivity]|].
+  split; [intros r v Hr; eapply wm_iter_items_ok; eassumption|].
+  split; [intros i v Hi; eapply wm_predecessor_ok; eassumption|].
+  split; [intros i v Hi; eapply wm_successor_ok; eassumption|].
+  eapply wm_into_iter_ok; eassumption.
+Qed.
+
+(* values that do not occur (inside the alphabet or not) have no occurrences *)
+Theorem absent_values V v :
+  ~ In v V ->
+  contains_v V v = false /\ (forall i, rank_v V i v = 0) /\ (forall r, select_v V r v = None) /\
+  value_iter_v V v = [] /\ (forall r, select_iter_v V r v = []) /\ (forall i, pred_v V i v = []) /\ (forall i, succ_v V i v = []).
+Proof.
+  intros Hv. assert (Hc : contains_v V v = false).
+  { destruct (contains_v V v) eqn:E; [|reflexivity]. apply contains_v_in in E. contradiction. }
+  assert (Hocc : occ V v = []).
+  { destruct (occ V v) as [|p t] eqn:E; [reflexivity|]. exfalso.
+    assert (Hs : select_v V 0 v = Some p) by (unfold select_v; rewrite E; reflexivity).
+    rewrite select_v_absent in Hs by exact Hc. discriminate. }
+  split; [exact Hc|]. split; [intros i; apply rank_v_absent; exact Hc|]. split; [intros r; apply select_v_absent; exact Hc|].
+  unfold value_iter_v, select_iter_v, pred_v, succ_v, value_iter_v. rewrite Hocc. cbn [index_from skipN pred_suffix_aux drop_below].
+  repeat split; reflexivity.
+Qed.
+
+(* From<Vec<T>> establishes the hypotheses of wm_exact, given the interfaces of the embedded structures *)
+Theorem wm_from_establishes sp m V wm :
+  Forall (fun x => x < 2 ^ 64) V -> lenN V < 2 ^ 64 -> list_max V + 1 < 2 ^ 64 ->
+  (forall col r b, lenB col < 2 ^ 64 -> bv_from_bits col = Ok r -> bv_enable_all sp m r = Ok b -> bv_queries_ok sp m b col) ->
+  (forall F iv first, Forall (fun x => x < 2 ^ 64) F -> lenN F < 2 ^ 64 ->
+     iv_from 64 F = Ok iv -> iv_pack iv = Ok first -> first_ok first F) ->
+  wm_from sp m V = Ok wm ->
+  exists levels first F,
+    wm = mkwm (lenN V) (mkcore levels) first /\
+    Forall2 (bv_queries_ok sp m) levels (wm_columns V) /\
+    first_offsets m V (lenN V) (list_max V) = Ok F /\ first_ok first F.
+Proof.
+  intros HV Hn Hmax HBV HIV H. apply wm_from_shape in H. destruct H as (raws & levels & F & iv & H1 & H2 & H3 & H4 & H5 & H6).
+  exists levels, (wm_first wm), F. split; [exact H6|]. split; [|split; [exact H3|]].
+  - eapply Forall2_compose; [exact H1|exact H2|]. intros col r b Hin Hr Hb. apply (HBV col r b); [|exact Hr|exact Hb].
+    pose proof (wm_columns_lens V HV) as HL. rewrite Forall_forall in HL. rewrite (HL col Hin). exact Hn.
+  - destruct (offsets_bounded m V F HV Hn Hmax H3) as [HF1 HF2]. apply (HIV F iv (wm_first wm)); [|lia|exact H4|exact H5].
+    rewrite Forall_forall in *. intros x Hx. specialize (HF2 x Hx). lia.
+Qed.
